@@ -149,7 +149,7 @@ pub fn gen_valid(c: &mut Chooser) -> Case {
         dirs_at(&mut doc, site).push(d);
     }
     // 2. structural additions
-    match c.choose("add", 15) {
+    match c.choose("add", 16) {
         0 => {}
         1 => doc.defs[2].fields.push(fld("extra", Ty::list(Ty::list(Ty::nn(Ty::named("Int")))))),
         2 => doc.defs[5].fields.push(FieldDef { args: Some(vec![ivd("a", Ty::nn(Ty::list(Ty::named("Kind"))), Some(Value::List(P::default(), vec![Value::Enum(P::default(), "A".into())])))]), ..fld("withArgs", Ty::named("Result")) }),
@@ -230,6 +230,13 @@ pub fn gen_valid(c: &mut Chooser) -> Case {
                     f.desc = Some((P::default(), "f".into()));
                 }
             }
+        }
+        14 => {
+            // an undecorated schema definition that lists only `query: Query`, while an ordinary object type called
+            // `Mutation` exists: the default root names must not be read into it
+            doc.defs[0].roots.retain(|r| r.0 == OpKind::Query);
+            doc.defs[0].dirs.clear();
+            tags.push("type-named-Mutation-that-is-not-a-root".into());
         }
         13 => {
             // one name in several namespaces: types named like directives that are applied (built-in and
